@@ -5,7 +5,7 @@
     instance on every run. *)
 From Coq Require Import NArith ZArith QArith Qabs List Bool.
 From SV Require Import Bin.Struct Fmt.DmxCodes Fmt.DmxCodesProofs Fmt.DmxBin Fmt.DmxBinProofs Fmt.DmxKv1 Fmt.DmxKv1Proofs
-  Fmt.DmxScalar Fmt.DmxScalarProofs Fmt.DmxTyped Fmt.DmxTypedProofs Text.Str Text.Escape Text.Tokenizer Text.TokGen Fmt.DmxKv2 Fmt.DmxKv2Proofs Fmt.DmxKv2Nested Fmt.DmxKv2NestedProofs Fmt.DmxKv2Inst Gen.DmxCodes_gen.
+  Fmt.DmxScalar Fmt.DmxScalarProofs Fmt.DmxTyped Fmt.DmxTypedProofs Text.Str Text.Escape Text.Tokenizer Text.TokGen Fmt.DmxKv2 Fmt.DmxKv2Proofs Fmt.DmxKv2Nested Fmt.DmxKv2NestedProofs Fmt.DmxKv2Inst Num.Dec6 Fmt.DmxValText Fmt.DmxValTextProofs Gen.DmxCodes_gen.
 Import ListNotations.
 
 (** The premises of the theorems below, for the configuration generated from today's source.  The check proves
@@ -13,7 +13,9 @@ Import ListNotations.
 Definition c14_instance_premises : bool :=
   bin_cfg_ok gen_cfg && kv1_cfg_ok gen_kv1 && scalar_cfg_ok gen_scalar && sizes_match_formats gen_scalar gen_cfg &&
   rtable_ok gen_ref_scalar && rtable_ok gen_ref_array &&
-  kv2_tables_ok gen_tables && kv2_opts_ok gen_kv2_opts && vtnames_ok gen_tables gen_fold gen_vtnames.
+  kv2_tables_ok gen_tables && kv2_opts_ok gen_kv2_opts && vtnames_ok gen_tables gen_fold gen_vtnames &&
+  float_text_cfg_ok gen_float_fmt && vec_text_components_ok gen_vec_text_written gen_vec_text_read &&
+  color_text_ok gen_color_text_written gen_color_text_read.
 
 (** The attribute type byte: encode then decode gives back the value type and the scalar/array flag, for all 14
     types and both shapes. *)
@@ -270,3 +272,40 @@ Theorem kv2_unescaped_name_refuted :
   tokenize pinned_tables pinned_kv2_opts (render_lex pinned_tables [([], LRaw [97; 34; 98]); ([], LNl)])
   <> Some (toks_of [([], LRaw [97; 34; 98]); ([], LNl)]).
 Proof. exact kv2_raw_name_refuted. Qed.
+
+(** * The value strings of KeyValues2 *)
+
+(** FLOAT and every component of VEC2 / VEC3 / VEC4 / ANGLE / QUATERNION are written by [_fmt_float]: the decimal the
+    text denotes is the binary64 value rounded half-even at six places (C05's exact model of ['%.6f'], Num/Dec6.v),
+    i.e. within 5e-7 of the value — "to 6 decimals in text".  [num_den x] is 10^6 |x| as an exact fraction. *)
+Theorem kv2_float_text_six_decimals : forall (c : fmt_cfg) (x : dyadic),
+  scaled_value (fmt_parts c x) = scaled6 x /\
+  (2 * Z.abs (Z.of_N (scaled6 x) * Z.of_N (snd (num_den x)) - Z.of_N (fst (num_den x))) <= Z.of_N (snd (num_den x)))%Z.
+Proof. exact float_text_value_gen. Qed.
+
+(** A vector text — the component texts joined by single spaces — splits ([str.split()], any whitespace set that
+    contains the space and no character of a decimal) into exactly the component texts, in order and number. *)
+Theorem kv2_vector_text_splits : forall (is_ws : N -> bool) (c : fmt_cfg) (xs : list dyadic),
+  is_ws SPC = true -> (forall ch, dec_char ch = true -> is_ws ch = false) ->
+  parse_parts is_ws (length xs) (vec_text c xs) = Some (map (format6 c) xs).
+Proof. exact vec_text_splits_gen. Qed.
+
+(** INTEGER: [int(str(n)) = n] for every integer; COLOR: the four components come back. *)
+Theorem kv2_int_text_roundtrip : forall z : Z, parse_int (int_text z) = Some z.
+Proof. exact int_text_roundtrip_gen. Qed.
+Theorem kv2_color_text_roundtrip : forall (is_ws : N -> bool) (r g b a : N),
+  is_ws SPC = true -> (forall ch, dec_char ch = true -> is_ws ch = false) ->
+  parse_color is_ws (color_text r g b a) = Some (Z.of_N r, Z.of_N g, Z.of_N b, Z.of_N a).
+Proof. exact color_text_roundtrip_gen. Qed.
+
+Theorem kv2_value_text_examples :
+  (float_text dmx_float_cfg {| dneg := false; dm := 1451; de := (-1)%Z |} = [55; 50; 53; 46; 53]%N) /\
+  (float_text dmx_float_cfg {| dneg := true; dm := 0; de := 0%Z |} = [45; 48]%N) /\
+  (float_text dmx_float_cfg {| dneg := false; dm := 1; de := (-30)%Z |} = [48]%N) /\
+  (float_text_cfg_ok dmx_float_cfg = true).
+Proof. exact float_text_examples. Qed.
+(** without the separator the components cannot be told apart *)
+Theorem kv2_vector_text_needs_separator :
+  let xs := [{| dneg := false; dm := 1; de := 0%Z |}; {| dneg := false; dm := 2; de := 0%Z |}] in
+  parse_parts (fun c => (c =? 32)%N) 2 (concat (map (format6 dmx_float_cfg) xs)) = None.
+Proof. exact vec_text_needs_separator. Qed.
